@@ -141,6 +141,8 @@ Acts ==
      THEN {[a |-> "send", k |-> Len(S.snd) + 1, app |-> ap, realm |-> "r9", timeout |-> 1, pick |-> "first"] : ap \in Apps} ELSE {}) \cup
   (IF "send1" \in Alpha /\ Len(S.snd) < 2    \* one variant: own realm, timeout 1
      THEN {[a |-> "send", k |-> Len(S.snd) + 1, app |-> ap, realm |-> NodeCfg.realm, timeout |-> 1, pick |-> "first"] : ap \in Apps} ELSE {}) \cup
+  (IF "sendd" \in Alpha /\ Len(S.snd) < 3    \* the library's default selection callback decides (least Peer.counters.requests)
+     THEN {[a |-> "send", k |-> Len(S.snd) + 1, app |-> ap, realm |-> NodeCfg.realm, timeout |-> 1, pick |-> "default"] : ap \in Apps} ELSE {}) \cup
   (IF "sendh" \in Alpha /\ Len(S.snd) < 2   \* the request names a Destination-Host: any configured peer, eligible for the application or not
      THEN {[a |-> "send", k |-> Len(S.snd) + 1, app |-> ap, realm |-> NodeCfg.realm, timeout |-> 1, pick |-> "first", dhost |-> h] : ap \in Apps, h \in Peers} ELSE {}) \cup
   (IF "send" \in Alpha /\ Len(S.snd) < 2
